@@ -108,7 +108,11 @@ class Run:
                     if a.get("reproduced"):
                         r = a
                 if not r.get("reproduced"):
-                    raise
+                    # undecided for this contract: the other contracts of the property are still checked; the error is
+                    # raised at the end unless one of them yields a violation (which is then what gets reported)
+                    del self.sink.obls[n0:]
+                    self.__dict__.setdefault("deferred_errors", []).append((c, e))
+                    continue
                 del self.sink.obls[n0:]
                 ob = self.sink.add("%s:%s%s" % (c.file, c.func, c.tag or ""), "contract", [], z3.BoolVal(False), meta={
                     "label": "the contract cannot be applied to the current text (%s) and the real function violates its ensures clauses %s" % (
@@ -122,6 +126,10 @@ class Run:
                 for ob in self.sink.obls[n0:]:
                     if ob.status is None and ob.backend == "smt" and ob.expect == "valid":
                         ob.meta["abstract_first"] = True
+            if c.gen is None and getattr(c, "replay_fn", None) is not None:
+                for ob in self.sink.obls[n0:]:
+                    if ob.replay is None and ob.kind in ("post", "preserve", "establish", "frame", "call-pre", "step"):
+                        ob.replay = (lambda fn_=c.replay_fn: (lambda model: self._shared_replay(fn_)))()
             if c.gen is not None:
                 for ob in self.sink.obls[n0:]:
                     if ob.replay is None and ob.kind in ("post", "preserve", "establish", "frame", "bounds", "call-pre", "step"):
@@ -131,6 +139,12 @@ class Run:
             if len(self.sink.obls) == n0:
                 raise CheckerError("zero obligations for %s" % c.func)
         return ex
+
+    def _shared_replay(self, fn_):
+        key = ("shared", getattr(fn_, "__name__", id(fn_)))
+        if key not in self._fuzz_cache:
+            self._fuzz_cache[key] = fn_()
+        return dict(self._fuzz_cache[key])
 
     def _fuzz_for(self, cfs, c, ob):
         """replay result for one obligation: a failing ensures clause counts for the post obligation of that
@@ -252,6 +266,11 @@ class Run:
         missing = [n for n, m in self.lock.items() if n not in names and m.get("kind") in ("post", "preserve", "establish", "equiv", "lemma", "sum", "deriv", "cont", "thermo", "doc", "finite", "vertex", "race")]
         # obligations of a function whose contract could not be applied but whose real code was shown to violate it
         gone = [o.name.rsplit(":", 2)[0] for o in obls if o.kind == "contract"]
+        gone += ["%s:%s%s" % (c_.file, c_.func, c_.tag or "") for (c_, _e) in getattr(self, "deferred_errors", [])]
+        if getattr(self, "deferred_errors", None) and not violations:
+            raise self.deferred_errors[0][1]
+        for (c_, e_) in getattr(self, "deferred_errors", []):
+            lines.append("NOTE: contract of %s%s could not be applied to the current text: %s" % (c_.func, c_.tag or "", str(e_)[:160]))
         missing = [n for n in missing if not any(n.startswith(g + ":") for g in gone)]
         if missing:
             raise CheckerError("obligations in the lock file are no longer generated (renamed or deleted code?): %s" % missing[:5])
